@@ -1,6 +1,7 @@
 package graphql
 
 import (
+	"github.com/graphql-go/graphql/verifhook"
 	"fmt"
 	"hash/fnv"
 	"strconv"
@@ -207,6 +208,7 @@ func (w *fingerprintWriter) writeType(t ast.Type) {
 }
 
 func (w *fingerprintWriter) writeSelectionSet(sel *ast.SelectionSet) {
+	verifhook.Count(verifhook.PlanCacheFingerprint)
 	if sel == nil {
 		return
 	}
@@ -280,6 +282,7 @@ func (w *fingerprintWriter) writeDirectives(directives []*ast.Directive) {
 }
 
 func (w *fingerprintWriter) writeFragmentBody(name string) {
+	verifhook.Count(verifhook.PlanCacheFingerprint)
 	if w.visited == nil {
 		w.visited = map[string]bool{}
 	}
@@ -305,6 +308,7 @@ func (w *fingerprintWriter) writeFragmentBody(name string) {
 // their kind+content — two identical un-extractable literals map to
 // the same fingerprint, two different ones don't.
 func (w *fingerprintWriter) writeValue(v ast.Value) {
+	verifhook.Count(verifhook.PlanCacheFingerprint)
 	switch n := v.(type) {
 	case nil:
 		w.writeByte('n')
@@ -421,6 +425,7 @@ func (c *normCtx) nextName() string {
 // Inline fragments are followed (with type-condition awareness);
 // fragment spreads are skipped (literals inside named fragments stay).
 func (c *normCtx) normalizeSelectionSet(sel *ast.SelectionSet, parentType *Object) {
+	verifhook.Count(verifhook.PlanCacheNormalize)
 	if sel == nil {
 		return
 	}
